@@ -13,5 +13,5 @@ CHECK = {'level': 'exploration',
  'level_text': 'Generated search with a metamorphic oracle (identical dump, identical (code, line) error sequence), constructs aimed at the fill boundaries, under ASan/UBSan.',
  'level_note': 'Trusted: the transformations preserve the denotation by the property statement itself; dump().',
  'engines': [{'src': 'pbt/C08_eol.cpp',
-              'quick': {'workers': 8, 'cases': 400, 'size': 100},
+              'quick': {'workers': 8, 'cases': 1500, 'size': 100},
               'thorough': {'workers': 16, 'cases': 20000, 'size': 100}}]}
